@@ -63,3 +63,7 @@ prop("C02", ["contracts.c02_server", "contracts.c06_localnode"], ["OnRequest", "
               "accepts or raises SdoAbortedError; LocalNode's own get_data/set_data are contracted separately",
               "Network.send_message does not raise (env/net.py)"],
      not_decided=["block transfer on the server side (not implemented by the library: refused with 0x05040001)"])
+
+prop("C01", ["contracts.c01_client"], ["WsInit", "WsWriteSegment", "WsWriteExpedited", "WsClose", "RsInit", "RsRead", "ReqResp", "Upload", "Download"],
+     assumed=["SdoClient.request_response as seen by the streams (env/sdoclient.py); the real function is contracted in ReqResp"],
+     not_decided=["CPython io.BufferedWriter/BufferedReader/TextIOWrapper internals (assumed contract), text-mode decoding, real time"])
